@@ -210,3 +210,71 @@ func c09GenTexts(r *RNG, tier string) []C09Spec {
 	}
 	return specs
 }
+
+// c09ShrinkBig: a table of more than 12 cells is first cut in halves (rows,
+// then columns, the header dropped, the single-table render mode) - the
+// one-step reductions of shrinkTable are as many as the table has cells and
+// each as large as the table, which for the tables of the content streams is
+// quadratic; they take over once the table is small.
+func c09ShrinkBig(sp C09Spec) []C09Spec {
+	ts := sp.Table
+	cells, width := 0, 0
+	for _, rw := range ts.Rows {
+		cells += len(rw.Cells)
+		if len(rw.Cells) > width {
+			width = len(rw.Cells)
+		}
+	}
+	if ts.Header != nil {
+		cells += len(*ts.Header)
+	}
+	if cells <= 12 || len(sp.Cbs) > 0 || ts.Header2 != nil || len(ts.Mutations) > 0 {
+		return nil
+	}
+	var out []C09Spec
+	with := func(f func(c *C09Spec)) {
+		c := sp
+		c.Shared, c.Perm, c.Staged, c.Grow, c.TwoTables = false, 0, false, 0, false
+		c.Table.Stages = nil
+		f(&c)
+		out = append(out, c)
+	}
+	if ts.Header != nil {
+		with(func(c *C09Spec) { c.Table.Header = nil; c.Table.HeaderAt = 0 })
+		hs := *ts.Header
+		with(func(c *C09Spec) { c.Table.Rows = nil; c.Table.HeaderAt = 0; h := hs; c.Table.Header = &h })
+	}
+	if n := len(ts.Rows); n > 1 {
+		with(func(c *C09Spec) { c.Table.Rows = append([]RowSpec{}, ts.Rows[:n/2]...); c.Table.HeaderAt = 0 })
+		with(func(c *C09Spec) { c.Table.Rows = append([]RowSpec{}, ts.Rows[n/2:]...); c.Table.HeaderAt = 0 })
+	}
+	if width > 1 {
+		for _, side := range []int{0, 1} {
+			side := side
+			with(func(c *C09Spec) {
+				cut := func(cs []ItemSpec) []ItemSpec {
+					k := len(cs) / 2
+					if side == 0 {
+						return append([]ItemSpec{}, cs[:k]...)
+					}
+					return append([]ItemSpec{}, cs[k:]...)
+				}
+				rows := make([]RowSpec, len(ts.Rows))
+				for i, rw := range ts.Rows {
+					rows[i] = rw
+					rows[i].Cells = cut(rw.Cells)
+					rows[i].Late = nil
+				}
+				c.Table.Rows = rows
+				if ts.Header != nil {
+					h := cut(*ts.Header)
+					c.Table.Header = &h
+				}
+			})
+		}
+	}
+	if len(out) == 0 {
+		return nil
+	}
+	return out
+}
